@@ -374,6 +374,17 @@ pub fn c14_case(ms: &[Member], l: &mut Local) {
             return;
         }
     }
+    // the same list added to a compound builder that is queried (size + scratch write) after every add_packet:
+    // what was asked earlier must not change the answer for the finished list
+    {
+        l.transitions += 1;
+        let probed = build::compound_builder_p(ms, true);
+        let size_p = probed.calculate_size().map_err(build::werr);
+        if size_p != size {
+            l.violation("compound-size-depends-on-earlier-queries", show, || format!("calculate_size() = {:?}, but {:?} when the builder was queried after every add_packet", size, size_p));
+            return;
+        }
+    }
     let n = match size {
         Err(_) => {
             l.hit("rejected (a member invalid or padding before the end)");
